@@ -5,7 +5,7 @@ import time
 
 from . import core
 from .core import Violation
-from .verus import run_verus, check_canaries, check_allowed, Undecided, BUILD
+from .verus import run_verus, check_canaries, check_allowed, only_added_statements, Undecided, BUILD
 
 
 def native_search(cmds, seed):
@@ -104,6 +104,8 @@ def run(pid, tier, seed, cfg):
         detail = '\n'.join(e['detail'] for e in r.errors if e['function'] is None or any(f == e['function'] or f.endswith('::' + e['function']) for f in failed))[:6000]
         obligations = ['%s::%s' % (unit.upper(), f) for f in failed]
         kinds = sorted(set(e['kind'] for e in r.errors if e['function'] and any(f.endswith(e['function']) for f in failed)))
+        if w is None and only_added_statements(r, failed):
+            raise Undecided('the only undischarged obligations of %s are at statements the uncommitted change added (early return / assertion): they did not exist on the committed tree; no failing input for %s was found' % (obligations, pid))
         if w is None and cfg.get('kinds') and not any(re.search(cfg['kinds'], k) for k in kinds):
             # the failed obligations are of a kind that belongs to a sibling property, and no failing input
             # for THIS property was found
